@@ -97,6 +97,20 @@ Definition modelled_write_sites : list string := [
   "guppylang/decorator.py:type_var:DEF_STORE.register_def()"
 ].
 
+(* State on the persistent std-library call-compiler / call-checker objects (created once at
+   import, never touched by reset()).  Modelled protocol: __init__ stores construction
+   parameters, the base-class `_setup` overwrites every per-call attribute before check/compile
+   runs, nothing else is stored -- so these objects contribute NO component to Sess.  The only
+   tolerated entries: a class-level constant, and EitherConstructor.compile swapping the rows of
+   the FRESH object that the (non-memoising) `either_ty` property builds on every access. *)
+Definition modelled_call_object_state : list string := [
+  "internals/definition/custom.py:CustomFunctionDef.description:class-attr";      (* dataclass field default "function" *)
+  "internals/definition/custom.py:RawCustomFunctionDef.description:class-attr";
+  "internals/std/_internal/compiler/platform.py:Hint.message:class-attr";         (* constant f-string *)
+  "internals/definition/custom.py:RawCustomFunctionDef.unitary_flags:class-attr";
+  "internals/std/_internal/compiler/either.py:EitherConstructor.compile:ty.variant_rows= [ty = self.either_ty]"
+].
+
 Definition mem (x : string) (l : list string) : bool := existsb (String.eqb x) l.
 Definition subset (a b : list string) : bool := forallb (fun x => mem x b) a.
 Definition same_set (a b : list string) : bool := subset a b && subset b a.
